@@ -33,6 +33,8 @@ def make_thread(c, name, op, slot):
     if op == 'Q':
         q = inp.qty('nq%s' % name)
         c.supplied.append(q)
+        if c.cube.get('positive_quantities'):
+            c.domain.append(S.Not(S.Eq(q, S.bv(0, 64))))
         return Thread(name, op, {'id': target_id(inp, 'tgt%s' % name, n), 'qty': q})
     if op == 'u':
         o = sym_order(L, inp, 'new%s' % name, oid=const_order_id(n + 1 + slot), price=h.P, variants=[0, 1, 6])
@@ -46,6 +48,8 @@ def make_thread(c, name, op, slot):
         if op in 'BX':
             d['qty'] = inp.qty('nq%s' % name)
             c.supplied.append(d['qty'])
+            if c.cube.get('positive_quantities'):
+                c.domain.append(S.Not(S.Eq(d['qty'], S.bv(0, 64))))
         return Thread(name, op, d)
     if op == 'N':
         return Thread(name, op, {'n': c.cube.get('calls', 2)})
